@@ -16,37 +16,48 @@ def rescale (x : Array K) (n : Nat) (f : Nat → Nat → K) : Array K :=
 def kvec (cj sqa : K → K) (z0 : Array K) (n : Nat) : Array K :=
   (Array.range n).map fun i => sqa ((z0[i]! + cj z0[i]!) / 2)
 
+/-- I − S -/
+def oneMinus (s : Array K) (n : Nat) : Array K :=
+  mk n fun i j => if i == j then -(get s n i j) + 1 else -(get s n i j)
+/-- diag(z0*) + S diag(z0) -/
+def zcPlusSz (cj : K → K) (s z0 : Array K) (n : Nat) : Array K :=
+  mk n fun i j => if i == j then get s n i j * z0[j]! + cj z0[i]! else get s n i j * z0[j]!
+/-- Z + diag(z0) -/
+def zPlus (z z0 : Array K) (n : Nat) : Array K :=
+  mk n fun i j => if i == j then get z n i j + z0[i]! else get z n i j
+/-- Z − diag(z0*) -/
+def zMinus (cj : K → K) (z z0 : Array K) (n : Nat) : Array K :=
+  mk n fun i j => if i == j then get z n i j - cj z0[i]! else get z n i j
+/-- I − diag(z0*) Y -/
+def oneMinusZcY (cj : K → K) (y z0 : Array K) (n : Nat) : Array K :=
+  mk n fun i j => if i == j then -(cj z0[i]!) * get y n i j + 1 else -(cj z0[i]!) * get y n i j
+/-- I + diag(z0) Y -/
+def onePlusZY (y z0 : Array K) (n : Nat) : Array K :=
+  mk n fun i j => if i == j then z0[i]! * get y n i j + 1 else z0[i]! * get y n i j
+
 /-- `vnaconv_stozn`: a = I − S, b = diag(z0*) + S diag(z0), Z = a⁻¹ b, Z(i,j) *= ki/kj -/
 def stozn (mag : K → Float) (cj sqa : K → K) (s z0 : Array K) (n : Nat) : Array K :=
   if n = 0 then #[] else
-  let a := mk n fun i j => if i == j then -(get s n i j) + 1 else -(get s n i j)
-  let b := mk n fun i j => if i == j then get s n i j * z0[j]! + cj z0[i]! else get s n i j * z0[j]!
   let k := kvec cj sqa z0 n
-  rescale (mldivide mag a b n n).1 n fun i j => k[i]! / k[j]!
+  rescale (mldivide mag (oneMinus s n) (zcPlusSz cj s z0 n) n n).1 n fun i j => k[i]! / k[j]!
 
 /-- `vnaconv_stoyn`: a = diag(z0*) + S diag(z0), b = I − S, Y = a⁻¹ b, Y(i,j) *= ki/kj -/
 def stoyn (mag : K → Float) (cj sqa : K → K) (s z0 : Array K) (n : Nat) : Array K :=
   if n = 0 then #[] else
-  let a := mk n fun i j => if i == j then get s n i j * z0[j]! + cj z0[i]! else get s n i j * z0[j]!
-  let b := mk n fun i j => if i == j then -(get s n i j) + 1 else -(get s n i j)
   let k := kvec cj sqa z0 n
-  rescale (mldivide mag a b n n).1 n fun i j => k[i]! / k[j]!
+  rescale (mldivide mag (zcPlusSz cj s z0 n) (oneMinus s n) n n).1 n fun i j => k[i]! / k[j]!
 
 /-- `vnaconv_ztosn`: b = Z − diag(z0*), a = Z + diag(z0), S = b a⁻¹, S(i,j) *= kj/ki -/
 def ztosn (mag : K → Float) (cj sqa : K → K) (z z0 : Array K) (n : Nat) : Array K :=
   if n = 0 then #[] else
-  let a := mk n fun i j => if i == j then get z n i j + z0[i]! else get z n i j
-  let b := mk n fun i j => if i == j then get z n i j - cj z0[i]! else get z n i j
   let k := kvec cj sqa z0 n
-  rescale (mrdivide mag b a n n).1 n fun i j => k[j]! / k[i]!
+  rescale (mrdivide mag (zMinus cj z z0 n) (zPlus z z0 n) n n).1 n fun i j => k[j]! / k[i]!
 
 /-- `vnaconv_ytosn`: b = I − diag(z0*) Y, a = I + diag(z0) Y, S = b a⁻¹, S(i,j) *= kj/ki -/
 def ytosn (mag : K → Float) (cj sqa : K → K) (y z0 : Array K) (n : Nat) : Array K :=
   if n = 0 then #[] else
-  let b := mk n fun i j => if i == j then -(cj z0[i]!) * get y n i j + 1 else -(cj z0[i]!) * get y n i j
-  let a := mk n fun i j => if i == j then z0[i]! * get y n i j + 1 else z0[i]! * get y n i j
   let k := kvec cj sqa z0 n
-  rescale (mrdivide mag b a n n).1 n fun i j => k[j]! / k[i]!
+  rescale (mrdivide mag (oneMinusZcY cj y z0 n) (onePlusZY y z0 n) n n).1 n fun i j => k[j]! / k[i]!
 
 /-- `vnaconv_ztoyn` / `vnaconv_ytozn`: matrix inverse -/
 def inv (mag : K → Float) (z : Array K) (n : Nat) : Array K :=
